@@ -3,7 +3,7 @@ SRC = ['repo:src/Document/Json.cpp', 'repo:src/String.cpp', 'repo:src/Memory.cpp
 UNITS = [dict(
     name='json', harness='harness/c15_json.cpp', sources=SRC, native_sources=SRC + ['repo:src/Error.cpp'],
     defines={'quick': {'VF_LEN': 4, 'VF_SLEN': 6}, 'thorough': {'VF_LEN': 5, 'VF_SLEN': 8}},
-    entries=['parse_safety', 'roundtrip', 'strip', 'unicode_escape'],
+    entries=['parse_safety', 'error_position', 'roundtrip', 'strip', 'unicode_escape'],
     opts={'all': {'unwind': 64}},
     split={'quick': 12, 'thorough': 16},
     budget={'quick': 280, 'thorough': 2600},
